@@ -17,6 +17,7 @@ struct Scenario {
     cli::WillSpec will; ref::Props connect_props; cli::AuthSpec auth;
     bkr::Config broker;
     uint32_t dns_fail_mask = 0, dns_two_mask = 0;
+    bool gate_dns = false;                 // every DNS lookup is a parked environment event (resolve-done | resolve-fail | time passes first)
     std::vector<Action> script;
     std::map<int, std::vector<Action>> on_complete;     // op index -> actions performed inside its completion handler
     std::optional<Action> inject;                       // injected at any choice point (F_INJECT)
